@@ -93,7 +93,7 @@ def check_case(case):
         if v:
             break
         # ---- (iv) hetero groups ----
-        het = [g for g in rec["confs"][cname]["groups"] if g["hetatm"]]
+        het = [g for g in rec["confs"][cname]["groups"] if g["hetatm"] or g["type"] == "ION"]
         per_res = collections.defaultdict(list)
         for g in het:
             if g["type"] == "ION":
@@ -212,6 +212,19 @@ def run_shard(ctx):
             body = [e for e in entries if isinstance(e, Atom) or e.startswith("TER")]
             text = "MODEL        1\n" + pdbio.write(body) + "ENDMDL\nMODEL        2\n" + pdbio.write(body) + "ENDMDL\n"
             labels.append("two-models")
+        if "hetero-first" not in labels and "two-models" not in labels and any(l.startswith("ion:") for l in labels) \
+                and draw(st.integers(0, 3)) == 0:
+            # ions written as ATOM records (modelling tools do): allowed only where they cannot be mistaken for the
+            # start of a chain, i.e. in the trailing hetero block after a terminated chain
+            ents = pdbio.parse(text)
+            last_ter = max((i for i, e in enumerate(ents) if isinstance(e, str) and e.startswith("TER")), default=None)
+            if last_ter is not None and all(isinstance(e, Atom) and e.rec == "HETATM" or not isinstance(e, Atom)
+                                            for e in ents[last_ter + 1:]):
+                for e in ents[last_ter + 1:]:
+                    if isinstance(e, Atom) and e.resn.strip() in gen.IONS:
+                        e.rec = "ATOM"
+                text = pdbio.write(ents)
+                labels.append("ion-as-ATOM")
         mode = draw(st.sampled_from(["none", "none", "none", "chains", "titrate"]))
         opt = []
         if mode == "chains":
@@ -234,7 +247,7 @@ def run_shard(ctx):
         interesting = [l for l in labels if l.startswith(("chains:", "no-ter-break", "oxt-not-last", "icode",
                                                           "negative-numbers", "lig:", "ion:", "truncated", "opt:",
                                                           "two-models", "hetero-first", "blank-chain", "mutated",
-                                                          "clash"))]
+                                                          "clash", "ion-as-ATOM"))]
         info["nontrivial"] = info.get("n_exp", 0) >= 2 and bool(interesting)
         info["labels"] = info.get("labels", []) + [l.split(":")[0] if l.startswith(("lig:", "ion:", "chains:"))
                                                    else l for l in interesting] + \
